@@ -709,4 +709,15 @@ def invalidate_last(repo: Repo) -> RuleRun:
 invalidate_last.rule_id = "C16.INVALIDATE-LAST"
 
 
-RULES = [knot_dependence, end_pairing, interface, closest_param_search, stale_alias, none_tests, no_memo, bounds_respected, range_start, no_stale_lazy_cache, unit_axis, deep_copy, queries_read_only, zero_length, queries_stateless, all_components, invalidate_last]
+def no_alias_store(repo: Repo) -> RuleRun:
+    """'an interpolated curve passes through its defining points' - its own: the point array of a curve is a private copy, not the caller's array (which another curve built from it, or an in-place translate of that one, would move). Same rule as C09.NO-ALIAS-STORE."""
+    from ..report import rebrand
+    from . import c09
+
+    return rebrand(c09.no_alias_store(repo), PROP, "C16.NO-ALIAS-STORE")
+
+
+no_alias_store.rule_id = "C16.NO-ALIAS-STORE"
+
+
+RULES = [knot_dependence, end_pairing, interface, closest_param_search, stale_alias, none_tests, no_memo, bounds_respected, range_start, no_stale_lazy_cache, unit_axis, deep_copy, queries_read_only, zero_length, queries_stateless, all_components, invalidate_last, no_alias_store]
